@@ -424,8 +424,14 @@ inline void initStripeState(
       stripeEnd = end;
     } else {
       Wide perStripe = totalRange / static_cast<Wide>(numWorkers);
-      Wide endWide = static_cast<Wide>(start) + static_cast<Wide>(i + 1) * perStripe;
-      stripeEnd = alignDownStripe(static_cast<IntegerT>(endWide), state.granularity);
+      // Stripe ends are multiples of the granularity measured from `start`, not absolute multiples:
+      // the contract is on chunk sizes, and with absolute alignment a start that is not itself a
+      // multiple of the granularity produced ragged first/last chunks in every stripe.
+      Wide offset = static_cast<Wide>(i + 1) * perStripe;
+      if (state.granularity > 1) {
+        offset -= offset % static_cast<Wide>(state.granularity);
+      }
+      stripeEnd = static_cast<IntegerT>(static_cast<Wide>(start) + offset);
       if (stripeEnd <= cursor) {
         stripeEnd = cursor;
       }
